@@ -140,6 +140,7 @@ def _turn() -> dict[str, object]:
     if sink is None:
         raise Shape("`with new_ipc_stream(<sink>, …)` around the loop not found")
     events: list[str] = []
+    tick_var: str | None = None
     sc_src = None
     lean_sc = None
     recv: list[str] = []
@@ -148,7 +149,15 @@ def _turn() -> dict[str, object]:
         src = ast.unparse(st)
         calls = _calls(st)
         if isinstance(st, ast.Expr) and isinstance(st.value, ast.Call) and ast.unparse(st.value.func) == "state.process":
+            if not (len(st.value.args) == 3 and isinstance(st.value.args[0], ast.Name)):
+                raise Shape("state.process: first argument is not a plain variable: " + src)
+            tick_var = st.value.args[0].id
             events.append("process")
+        elif (tick_var is not None and isinstance(st, ast.Assign) and len(st.targets) == 1 and isinstance(st.targets[0], ast.Name)
+              and st.targets[0].id == tick_var):
+            if ast.unparse(st.value) != "_TICK_BATCH":
+                raise Shape("tick variable reassigned to something else than _TICK_BATCH: " + src)
+            events.append("tick_reset")
         elif isinstance(st, ast.If) and ast.unparse(st.test) == "not out.finished" and "out.validate" in calls:
             events.append("validate")
         elif "_flush_collector" in calls:
@@ -195,7 +204,47 @@ def _turn() -> dict[str, object]:
         raise Shape("should_continue assignment / mint branch not found")
     if len(set(recv)) != 1:
         raise Shape(f"should_continue compares tell() of {recv}")
-    return {"events": events, "sc_src": sc_src, "lean_sc": lean_sc, "mint_guard": mint_guard, "recv": recv[0], "sink": sink, "cap": cap}
+    # ---- what process() receives: the tick variable, built before the loop from the init request's metadata
+    if tick_var is None:
+        raise Shape("state.process call not found at the top level of the loop")
+    builds = [n for n in ast.walk(fn) if isinstance(n, ast.Assign) and len(n.targets) == 1 and isinstance(n.targets[0], ast.Name)
+              and n.targets[0].id == tick_var and not any(n is x for x in ast.walk(loop))]
+    want = ("AnnotatedBatch(batch=_TICK_BATCH.batch, custom_metadata=init_request_metadata) "
+            "if init_request_metadata is not None else _TICK_BATCH")
+    if len(builds) != 1 or ast.unparse(builds[0].value) != want:
+        raise Shape("first tick is not built as `" + want + "`: " + "; ".join(ast.unparse(b.value) for b in builds))
+    # any other write to the tick variable inside the loop (nested, conditional) is not the recognised shape
+    inner = [n for n in ast.walk(loop) if isinstance(n, (ast.Assign, ast.AugAssign, ast.AnnAssign))
+             and tick_var in [t.id for t in (n.targets if isinstance(n, ast.Assign) else [n.target]) if isinstance(t, ast.Name)]]
+    n_reset = events.count("tick_reset")
+    if len(inner) != n_reset or n_reset > 1:
+        raise Shape("tick variable is written in the loop outside the recognised `<tick> = _TICK_BATCH` statement")
+    if n_reset == 1 and events.index("tick_reset") != events.index("process") + 1:
+        raise Shape("tick reset is not the statement right after state.process")
+    # ---- which callers hand the request's metadata to the turn
+    tree_calls = {}
+    for caller in ("_run_http_producer_init", "_run_stream_exchange_sync"):
+        cf = _func(tree, caller)
+        cs = [n for n in ast.walk(cf) if isinstance(n, ast.Call) and ast.unparse(n.func) == "_run_http_producer_turn"]
+        if len(cs) != 1:
+            raise Shape(f"{caller}: expected one call of _run_http_producer_turn")
+        kw = {k.arg: ast.unparse(k.value) for k in cs[0].keywords}
+        tree_calls[caller] = kw.get("init_request_metadata")
+    default = None
+    for a, d in zip(fn.args.kwonlyargs, fn.args.kw_defaults):
+        if a.arg == "init_request_metadata":
+            default = ast.unparse(d) if d is not None else "<required>"
+    if default != "None":
+        raise Shape(f"init_request_metadata default is {default}")
+    init_src = tree_calls["_run_http_producer_init"]
+    if init_src is not None:
+        cf = _func(tree, "_run_http_producer_init")
+        ok = any(isinstance(n, ast.Assign) and ast.unparse(n) == f"{init_src} = _current_request_metadata.get()" for n in ast.walk(cf))
+        if not ok:
+            raise Shape("_run_http_producer_init: init_request_metadata is not the request's metadata")
+    return {"tick_resets": n_reset == 1, "init_first": init_src is not None,
+            "cont_first": tree_calls["_run_stream_exchange_sync"] is not None, "tick_var": tick_var,
+            "events": events, "sc_src": sc_src, "lean_sc": lean_sc, "mint_guard": mint_guard, "recv": recv[0], "sink": sink, "cap": cap}
 
 
 # ------------------------------------------------------------------------------------------ resume token
@@ -271,6 +320,14 @@ def tellReceiver : String := "{t['recv']}"
 def ipcSink : String := "{t['sink']}"
 /-- `tell()` is taken on the IPC writer's own sink, so it counts the IPC bytes of the turn whatever codec wraps the body -/
 def tellOnIpcSink : Bool := {"true" if t['recv'] == t['sink'] else "false"}
+
+/-- what `process()` receives.  A tick either carries the init request's metadata (`true`) or is the empty `_TICK_BATCH`
+(`false`).  Source: `state.process({t['tick_var']}, out, produce_ctx)`{' followed by `' + str(t['tick_var']) + ' = _TICK_BATCH`' if t['tick_resets'] else ' — the variable is NOT reset in the loop'}. -/
+def tickAfterProcess (carriesInitMd : Bool) : Bool := {"false" if t['tick_resets'] else "carriesInitMd"}
+/-- `_run_http_producer_init` hands the request's metadata to the turn (`init_request_metadata=`) -/
+def initFirstTick : Bool := {"true" if t['init_first'] else "false"}
+/-- the continuation branch of `_run_stream_exchange_sync` does not (parameter default `None`) -/
+def contFirstTick : Bool := {"true" if t['cont_first'] else "false"}
 
 /-- events of one loop iteration, in source order -/
 def loopOrder : List String := {_strlist(t['events'])}
